@@ -216,6 +216,20 @@ CHECKS["C02"] = {
     "technique": "Coq proofs per value kind over the writer/reader decision logic + grid correspondence + strict round-trip oracle",
 }
 
+CHECKS["C07"] = {
+    "text": "Partial. Proof (Coq) over the whole finite domain generated from /repo (15 relation kinds x the attributes a "
+            "qualified relation can carry): the RDF predicate chosen by the writer's cascade of substring tests is read back by "
+            "the reader's predicate_mapper and kind-dependent substring tests as the same attribute; the known defect for custom "
+            "attribute names containing the tested substrings is refuted in the model (C07-F1). The quad-level round trip "
+            "(qualified-influence pattern, unqualified forms, literal mapping, bundles as named graphs) is NOT modelled in Coq: "
+            "it is decided per run by a direct oracle on documents generated inside the property's quantifier — TriG written, "
+            "read back, compared set-based with unified(), and the decoder re-run on graphs rebuilt in shuffled quad order. "
+            "Tie: model predicate vs the predicate found in the implementation's graph, and the attribute read back, for every "
+            "kind x attribute.",
+    "design_ref": "DESIGN.md §5 C07, §10",
+    "technique": "Coq proof by computation over the finite predicate domain + round-trip oracle with shuffled quad orders",
+}
+
 NOT_YET = {}
 
 
